@@ -20,7 +20,7 @@ class BicepsSubscription(ActionBasedSubscription):
     The class is used by ActionBasedSubscriptionsManager."""
 
     def send_notification_report(self, body_node: xml_utils.LxmlElement, action: str):
-        if not self.is_valid:
+        if not self.is_valid or self.unsubscribed_at is not None:
             return
         inf = HeaderInformationBlock(addr_to=self.notify_to_address,
                                      action=action,
